@@ -20,9 +20,9 @@ type tgen struct {
 	feats map[string]bool
 }
 
-func (t *tgen) ch(p float64) bool      { return t.r.Float64() < p }
+func (t *tgen) ch(p float64) bool       { return t.r.Float64() < p }
 func (t *tgen) pick(l ...string) string { return l[t.r.Intn(len(l))] }
-func (t *tgen) feat(f string)          { t.feats[f] = true }
+func (t *tgen) feat(f string)           { t.feats[f] = true }
 
 func (t *tgen) finish(profile string) GCase {
 	fl := make([]string, 0, len(t.feats))
@@ -1142,4 +1142,6 @@ func famSlices(t *tgen) {
 	t.files[t.name+"/types.go"] = ty.String()
 }
 
-func newRand(seed int64, idx int) *rand.Rand { return rand.New(rand.NewSource(seed*15485863 + int64(idx)*101)) }
+func newRand(seed int64, idx int) *rand.Rand {
+	return rand.New(rand.NewSource(seed*15485863 + int64(idx)*101))
+}
